@@ -81,18 +81,20 @@ def run(tier):
             if norm(pa, na) != norm(pc, nc):
                 rep.violation("C10|spelling|%s|%s" % (kind, re.sub(r"\bL\d+\b", "Lk", inner)), {"std": pa, "diplomat": pc, "inner": inner},
                               "Option<%s> and DiplomatOption<%s> give different C declarations: %s vs %s" % (inner, inner, pa, pc))
+    from checks import c10js
+    jsh = c10js.js_half(rep, wd)
     samples = []
     for (m, j, c) in r["cases"][::max(1, len(r["cases"]) // 5)][:5]:
         e = F.expected_line(m, j, c)
         samples.append({"rust": F.rust_method(m)[:240], "case": repr(c)[:160], "expected": e if isinstance(e, str) else e[-1]})
     cov = {
-        "evaluations": st["expected"] + nsz + pairs,
+        "evaluations": st["expected"] + nsz + pairs + jsh["calls_judged"],
         "distinct_nontrivial": len({repr(F.expected_line(m, j, c)) for (m, j, c) in r["cases"]}),
         "rule": "one case per (method with an Option/Result/optional-pointer in parameter, return or struct-field position, value); plus one size judgement per Result/Option return "
                 "record and one declaration comparison per (std, DiplomatOption) spelling pair",
         "exhaustive": True,
         "distinct_outcomes": st["outcomes"],
-        "bound": {"tier": tier, "methods": len(b["methods"]), "calls": len(r["cases"]), "size_judgements": nsz, "spelling_pairs": pairs},
+        "bound": {"tier": tier, "methods": len(b["methods"]), "calls": len(r["cases"]), "size_judgements": nsz, "spelling_pairs": pairs, "js_option_parameters": jsh},
         "samples": samples,
     }
     return rep.finish(cov, ["shares the generated crate, headers and value alphabets with C01", "is_ok is read through the header's `bool is_ok` member; a non-0/1 flag byte would be the callee's UB and is not probed"])
